@@ -102,7 +102,7 @@ pub fn prog_of(l: &Ledger, mint: &Pubkey) -> Pubkey {
 
 pub const ADAPTIVE_TIER_INDEX: u16 = 1024 + 64;
 
-fn ix_init_adaptive_fee_tier(cfg: &Config, funder: Pubkey, fee_tier_index: u16, tick_spacing: u16, base_fee: u16) -> Instruction {
+fn ix_init_adaptive_fee_tier(cfg: &Config, funder: Pubkey, fee_tier_index: u16, tick_spacing: u16, base_fee: u16, initialize_pool_authority: Pubkey) -> Instruction {
     world::ix(
         wa::InitializeAdaptiveFeeTier {
             whirlpools_config: cfg.addr,
@@ -115,7 +115,7 @@ fn ix_init_adaptive_fee_tier(cfg: &Config, funder: Pubkey, fee_tier_index: u16, 
         wi::InitializeAdaptiveFeeTier {
             fee_tier_index,
             tick_spacing,
-            initialize_pool_authority: Pubkey::default(),
+            initialize_pool_authority,
             delegated_fee_authority: Pubkey::default(),
             default_base_fee_rate: base_fee,
             filter_period: 30,
@@ -130,7 +130,7 @@ fn ix_init_adaptive_fee_tier(cfg: &Config, funder: Pubkey, fee_tier_index: u16, 
     )
 }
 
-fn ix_init_pool_adaptive(p: &PoolRef, funder: Pubkey, sqrt_price: u128) -> Instruction {
+fn ix_init_pool_adaptive(p: &PoolRef, funder: Pubkey, sqrt_price: u128, trade_enable_timestamp: Option<u64>) -> Instruction {
     world::ix(
         wa::InitializePoolWithAdaptiveFee {
             whirlpools_config: p.cfg,
@@ -151,7 +151,7 @@ fn ix_init_pool_adaptive(p: &PoolRef, funder: Pubkey, sqrt_price: u128) -> Instr
             rent: sysvar::rent::ID,
         }
         .to_account_metas(None),
-        wi::InitializePoolWithAdaptiveFee { initial_sqrt_price: sqrt_price, trade_enable_timestamp: None }.data(),
+        wi::InitializePoolWithAdaptiveFee { initial_sqrt_price: sqrt_price, trade_enable_timestamp }.data(),
     )
 }
 
@@ -166,7 +166,9 @@ struct PoolGeom {
     reward_emissions: u128,
 }
 
-pub fn build(kind: Kind, label: &str, adaptive: [bool; 3]) -> (Ledger, W3) {
+/// `trade_enable_in`: Some(dt) = the adaptive-fee pools come from a permissioned tier (the funder is its initialize-pool
+/// authority) and open for trading `dt` seconds after the ledger's start time; None = permission-less tier, tradable at once.
+pub fn build(kind: Kind, label: &str, adaptive: [bool; 3], trade_enable_in: Option<i64>) -> (Ledger, W3) {
     let mut l = world::base_ledger();
     let cfg = world::init_config(&mut l, label, 300);
     let funder = key(&format!("{label}/funder"));
@@ -180,7 +182,7 @@ pub fn build(kind: Kind, label: &str, adaptive: [bool; 3]) -> (Ledger, W3) {
         world::must("init_fee_tier", svm::process(&mut l, &world::ix_init_fee_tier(&cfg, funder, g.ts, g.fee)));
     }
     if adaptive.iter().any(|x| *x) {
-        world::must("init_adaptive_fee_tier", svm::process(&mut l, &ix_init_adaptive_fee_tier(&cfg, funder, ADAPTIVE_TIER_INDEX, 64, 2000)));
+        world::must("init_adaptive_fee_tier", svm::process(&mut l, &ix_init_adaptive_fee_tier(&cfg, funder, ADAPTIVE_TIER_INDEX, 64, 2000, if trade_enable_in.is_some() { funder } else { Pubkey::default() })));
     }
     // mints, sorted so that M1 < M2 < M3
     let mut mints = [key(&format!("{label}/mintX")), key(&format!("{label}/mintY")), key(&format!("{label}/mintZ"))];
@@ -223,7 +225,7 @@ pub fn build(kind: Kind, label: &str, adaptive: [bool; 3]) -> (Ledger, W3) {
         // adaptive pools use the ts-64 adaptive tier whatever the geometry row says
         let (narrow, wide) = if adaptive[pi] { ((-128, 128), (-1280, 1280)) } else { (g.narrow, g.wide) };
         let init = if adaptive[pi] {
-            ix_init_pool_adaptive(&pool, funder, 1u128 << 64)
+            ix_init_pool_adaptive(&pool, funder, 1u128 << 64, trade_enable_in.map(|dt| (l.unix_ts + dt) as u64))
         } else if pool.is_v1_capable() {
             world::ix_init_pool_v1(&pool, funder, 1u128 << 64)
         } else {
@@ -301,6 +303,10 @@ pub fn roots(w: &W3) -> Vec<(&'static str, Vec<Op3>)> {
     }
     aged.push(Op3 { pool: 0, op: Op::Clock(777) });
     aged.push(Op3 { pool: 1, op: Op::Swap { a_to_b: true, exact_in: true, amount: u64::MAX >> 8, lim: Lim::NextTick, v2: true } });
+    if w.name.ends_with("-te") {
+        // an adaptive-fee pool that is not yet open for trading: no swap can be part of a root
+        return vec![("funded", fund)];
+    }
     vec![("funded", fund), ("aged", aged)]
 }
 
